@@ -130,37 +130,46 @@ Definition pure_builtin (f : string) (args : list val) : option (res val) :=
 
 Definition arg_val (s : estate) (r : rval) : val := scalar_of (es_facts s) r.
 
+(* what a method call on receiver r yields on facts fx: result and (for struct receivers) the facts afterwards *)
+Inductive call_kind := CallPure (r : res rval) | CallStruct (p : path) (fs : list (string * fval)).
+
+Definition receiver_kind (fx : facts) (r : rval) (f : string) (args : list val) : call_kind :=
+  match r with
+  | RV (VStr str) => CallPure (match string_func str f args with Ok v => Ok (RV v) | Err => Err | Panic => Panic end)
+  | RV _ => CallPure Err
+  | RRef p =>
+      match path_get fx p with
+      | Ok (FSlice xs) => CallPure (match f, args with "Len"%string, [] => Ok (RV (VInt Iw (Z.of_nat (List.length xs)))) | _, _ => Err end)
+      | Ok (FMap kvs) => CallPure (match f, args with "Len"%string, [] => Ok (RV (VInt Iw (Z.of_nat (List.length kvs)))) | _, _ => Err end)
+      | Ok (FPtr (Some (FStruct fs))) => CallStruct p fs
+      | Ok (FPtr None) => CallPure Panic          (* MethodByName on a nil receiver: the method itself dereferences *)
+      | Ok _ => CallPure Err
+      | Err => CallPure Err
+      | Panic => CallPure Panic
+      end
+  end.
+
 (* the receiver of a method call: a struct behind a reference *)
 Definition call_receiver (s : estate) (r : rval) (f : string) (args : list val) : res rval * estate :=
-  match r with
-  | RV (VStr str) => (match string_func str f args with Ok v => Ok (RV v) | Err => Err | Panic => Panic end, s)
-  | RV _ => (Err, s)
-  | RRef p =>
-      match path_get (es_facts s) p with
-      | Ok (FSlice xs) => (match f, args with "Len"%string, [] => Ok (RV (VInt Iw (Z.of_nat (List.length xs)))) | _, _ => Err end, s)
-      | Ok (FMap kvs) => (match f, args with "Len"%string, [] => Ok (RV (VInt Iw (Z.of_nat (List.length kvs)))) | _, _ => Err end, s)
-      | Ok (FPtr (Some (FStruct fs))) =>
-          match meth fs f args with
-          | Ok (ret, fs') =>
-              let s := count_call s f in
-              match path_set (es_facts s) p (FPtr (Some (FStruct fs'))) with
-              | Some fx => (Ok (RV (match ret with Some v => v | None => VNil end)), with_facts s fx)
-              | None => (Err, s)
-              end
-          | Err => (Err, s)
-          | Panic => (Panic, if panics_inside f args then count_call s f else s)
+  match receiver_kind (es_facts s) r f args with
+  | CallPure res => (res, s)
+  | CallStruct p fs =>
+      match meth fs f args with
+      | Ok (ret, fs') =>
+          let s := count_call s f in
+          match path_set (es_facts s) p (FPtr (Some (FStruct fs'))) with
+          | Some fx => (Ok (RV (match ret with Some v => v | None => VNil end)), with_facts s fx)
+          | None => (Err, s)
           end
-      | Ok (FPtr None) => (Panic, s)                (* MethodByName on a nil receiver: the method itself dereferences *)
-      | Ok _ => (Err, s)
       | Err => (Err, s)
-      | Panic => (Panic, s)
+      | Panic => (Panic, if panics_inside f args then count_call s f else s)
       end
   end.
 
 (* navigation from an evaluated node *)
-Definition child_field (s : estate) (r : rval) (n : string) : res rval :=
+Definition child_field_f (fx : facts) (r : rval) (n : string) : res rval :=
   match r with
-  | RRef p => match path_get (es_facts s) p with
+  | RRef p => match path_get fx p with
               | Ok v => match step_get v (SField n) with
                         | Ok c => Ok (rval_of (path_snoc p (SField n)) c)
                         | Err => Err | Panic => Panic
@@ -169,11 +178,12 @@ Definition child_field (s : estate) (r : rval) (n : string) : res rval :=
               end
   | RV _ => Err
   end.
+Definition child_field (s : estate) (r : rval) (n : string) : res rval := child_field_f (es_facts s) r n.
 
-Definition child_sel (s : estate) (r : rval) (k : val) : res rval :=
+Definition child_sel_f (fx : facts) (r : rval) (k : val) : res rval :=
   match r with
   | RRef p =>
-      match path_get (es_facts s) p with
+      match path_get fx p with
       | Ok (FSlice xs) =>
           match k with
           | VInt _ i => match nth_z xs i with Some c => Ok (rval_of (path_snoc p (SIndex i)) c) | None => Err end
@@ -189,8 +199,61 @@ Definition child_sel (s : estate) (r : rval) (k : val) : res rval :=
       end
   | RV _ => Err
   end.
+Definition child_sel (s : estate) (r : rval) (k : val) : res rval := child_sel_f (es_facts s) r k.
 
 Definition negate (r : rval) : rval := match r with RV (VBool b) => RV (VBool (negb b)) | _ => r end.
+
+(* Expression.Evaluate on a binary node, apart from the recursive calls *)
+Definition bin_left_fail (o : op) (lres : res rval) : option (res rval) :=
+  match o, lres with
+  | OAnd, Err | OOr, Err => Some Err
+  | OAnd, Panic | OOr, Panic => Some Panic
+  | _, _ => None
+  end.
+Definition bin_shortcut (o : op) (fx : facts) (lres : res rval) : option rval :=
+  match o, lres with
+  | OAnd, Ok lv => match EvaluateLogicSingle (scalar_of fx lv) with Ok (VBool false) => Some (RV (VBool false)) | _ => None end
+  | OOr, Ok lv => match EvaluateLogicSingle (scalar_of fx lv) with Ok (VBool true) => Some (RV (VBool true)) | _ => None end
+  | _, _ => None
+  end.
+Definition bin_combine (o : op) (fx : facts) (lres rres : res rval) : res rval :=
+  match lres, rres with
+  | Panic, _ => Panic
+  | Err, Panic => Panic
+  | Err, _ => Err
+  | Ok _, Err => Err
+  | Ok _, Panic => Panic
+  | Ok lv, Ok rv =>
+      match op_apply o (scalar_of fx lv) (scalar_of fx rv) with
+      | Ok v => Ok (RV v)
+      | Err => Err
+      | Panic => Panic
+      end
+  end.
+
+(* DEFUNC calls that only compute a value from their (evaluated) arguments *)
+Definition defunc_value (fx : facts) (f : string) (vs : list rval) : res rval :=
+  let vals := map (scalar_of fx) vs in
+  match f, vals with
+  | "IsNil"%string, [_] =>
+      match vs with
+      | [RV VNil] => Ok (RV (VBool true))
+      | [RV _] => Ok (RV (VBool false))
+      | [RRef p] => match path_get fx p with
+                    | Ok (FPtr None) => Ok (RV (VBool true))
+                    | Ok (FStruct _) | Ok (FPtr (Some _)) => Ok (RV (VBool false))
+                    | Ok (FSlice _) | Ok (FMap _) => Ok (RV (VBool false))
+                    | _ => Err
+                    end
+      | _ => Err
+      end
+  | _, _ => match pure_builtin f vals with
+            | Some (Ok v) => Ok (RV v)
+            | Some Err => Err
+            | Some Panic => Panic
+            | None => Err          (* no such function *)
+            end
+  end.
 
 Fixpoint eval_expr (e : expr) (s : estate) {struct e} : res rval * estate :=
   match lookup_expr (es_mexpr s) e with
@@ -209,32 +272,16 @@ Fixpoint eval_expr (e : expr) (s : estate) {struct e} : res rval * estate :=
         end
     | EBin o l r =>
         let '(lres, s1) := eval_expr l s in
-        let shortcut :=
-          match o, lres with
-          | OAnd, Ok lv => match EvaluateLogicSingle (arg_val s1 lv) with Ok (VBool false) => Some (RV (VBool false)) | _ => None end
-          | OOr, Ok lv => match EvaluateLogicSingle (arg_val s1 lv) with Ok (VBool true) => Some (RV (VBool true)) | _ => None end
-          | _, _ => None
-          end in
-        match o, lres with
-        | OAnd, Err | OOr, Err => (Err, s1)
-        | OAnd, Panic | OOr, Panic => (Panic, s1)
-        | _, _ =>
-          match shortcut with
+        match bin_left_fail o lres with
+        | Some r0 => (r0, s1)
+        | None =>
+          match bin_shortcut o (es_facts s1) lres with
           | Some v => (Ok v, memo_expr s1 e v)
           | None =>
               let '(rres, s2) := eval_expr r s1 in
-              match lres, rres with
-              | Panic, _ => (Panic, s2)
-              | Err, Panic => (Panic, s2)
-              | Err, _ => (Err, s2)
-              | Ok _, Err => (Err, s2)
-              | Ok _, Panic => (Panic, s2)
-              | Ok lv, Ok rv =>
-                  match op_apply o (arg_val s2 lv) (arg_val s2 rv) with
-                  | Ok v => (Ok (RV v), memo_expr s2 e (RV v))
-                  | Err => (Err, s2)
-                  | Panic => (Panic, s2)
-                  end
+              match bin_combine o (es_facts s2) lres rres with
+              | Ok v => (Ok v, memo_expr s2 e v)
+              | r0 => (r0, s2)
               end
           end
         end
@@ -261,24 +308,7 @@ with eval_atom (a : atom) (s : estate) {struct a} : res rval * estate :=
             | "Complete"%string, [] => (Ok (RV VNil), add_fx s1 FxComplete)
             | "Forget"%string, [VStr n] | "Changed"%string, [VStr n] => (Ok (RV VNil), reset_name s1 n)
             | "Retract"%string, _ | "Complete"%string, _ | "Forget"%string, _ | "Changed"%string, _ => (Panic, s1)
-            | "IsNil"%string, [_] =>
-                (match vs with
-                 | [RV VNil] => Ok (RV (VBool true))
-                 | [RV _] => Ok (RV (VBool false))
-                 | [RRef p] => match path_get (es_facts s1) p with
-                               | Ok (FPtr None) => Ok (RV (VBool true))
-                               | Ok (FStruct _) | Ok (FPtr (Some _)) => Ok (RV (VBool false))
-                               | Ok (FSlice _) | Ok (FMap _) => Ok (RV (VBool false))
-                               | _ => Err
-                               end
-                 | _ => Err
-                 end, s1)
-            | _, _ => match pure_builtin f vals with
-                      | Some (Ok v) => (Ok (RV v), s1)
-                      | Some Err => (Err, s1)
-                      | Some Panic => (Panic, s1)
-                      | None => (Err, s1)          (* no such function *)
-                      end
+            | _, _ => (defunc_value (es_facts s1) f vs, s1)
             end
         | (Err, s1) => (Err, s1)
         | (Panic, s1) => (Panic, s1)
@@ -361,6 +391,147 @@ with eval_args (l : elist) (s : estate) {struct l} : res (list rval) * estate :=
       | (Panic, s1) => (Panic, s1)
       end
   end.
+
+(* the bodies of eval_expr / eval_atom after a memo miss, as plain definitions, with the unfolding equations
+   (the mutual fixpoint does not unfold by simpl once the section is closed) *)
+Definition eval_expr_miss (e : expr) (s : estate) : res rval * estate :=
+    match e with
+    | EAtom a =>
+        match eval_atom a s with
+        | (Ok v, s1) => (Ok v, memo_expr s1 e v)
+        | (r, s1) => (r, s1)
+        end
+    | EParen neg e' =>
+        match eval_expr e' s with
+        | (Ok v, s1) => let v' := if neg then negate v else v in (Ok v', memo_expr s1 e v')
+        | (r, s1) => (r, s1)
+        end
+    | EBin o l r =>
+        let '(lres, s1) := eval_expr l s in
+        match bin_left_fail o lres with
+        | Some r0 => (r0, s1)
+        | None =>
+          match bin_shortcut o (es_facts s1) lres with
+          | Some v => (Ok v, memo_expr s1 e v)
+          | None =>
+              let '(rres, s2) := eval_expr r s1 in
+              match bin_combine o (es_facts s2) lres rres with
+              | Ok v => (Ok v, memo_expr s2 e v)
+              | r0 => (r0, s2)
+              end
+          end
+        end
+    end.
+Definition eval_atom_miss (a : atom) (s : estate) : res rval * estate :=
+    match a with
+    | AConst c => let v := RV (const_val c) in (Ok v, memo_atom s a v)
+    | AVar x =>
+        match eval_var x s with
+        | (Ok v, s1) => (Ok v, memo_atom s1 a v)
+        | (r, s1) => (r, s1)
+        end
+    | AFunc f args =>
+        (* DEFUNC call: never remembered *)
+        match eval_args args s with
+        | (Ok vs, s1) =>
+            let vals := map (arg_val s1) vs in
+            match f, vals with
+            | "Retract"%string, [VStr n] => (Ok (RV VNil), add_fx s1 (FxRetract n))
+            | "Complete"%string, [] => (Ok (RV VNil), add_fx s1 FxComplete)
+            | "Forget"%string, [VStr n] | "Changed"%string, [VStr n] => (Ok (RV VNil), reset_name s1 n)
+            | "Retract"%string, _ | "Complete"%string, _ | "Forget"%string, _ | "Changed"%string, _ => (Panic, s1)
+            | _, _ => (defunc_value (es_facts s1) f vs, s1)
+            end
+        | (Err, s1) => (Err, s1)
+        | (Panic, s1) => (Panic, s1)
+        end
+    | ANeg a' =>
+        match eval_atom a' s with
+        | (Ok v, s1) => let v' := negate v in (Ok v', memo_atom s1 a v')
+        | (r, s1) => (r, s1)
+        end
+    | AMethod a' f args =>
+        match eval_atom a' s with
+        | (Ok recv, s1) =>
+            match eval_args args s1 with
+            | (Ok vs, s2) =>
+                match call_receiver s2 recv f (map (arg_val s2) vs) with
+                | (Ok v, s3) => (Ok v, memo_atom s3 a v)
+                | (r, s3) => (r, s3)
+                end
+            | (Err, s2) => (Err, s2)
+            | (Panic, s2) => (Panic, s2)
+            end
+        | (r, s1) => (r, s1)
+        end
+    | AMember a' n =>
+        match eval_atom a' s with
+        | (Ok recv, s1) =>
+            match child_field s1 recv n with
+            | Ok v => (Ok v, memo_atom s1 a v)
+            | Err => (Err, s1) | Panic => (Panic, s1)
+            end
+        | (r, s1) => (r, s1)
+        end
+    | ASel a' sel =>
+        (* atom[sel]: never remembered *)
+        match eval_atom a' s with
+        | (Ok recv, s1) =>
+            match eval_expr sel s1 with
+            | (Ok k, s2) => (child_sel s2 recv (arg_val s2 k), s2)
+            | (r, s2) => (r, s2)
+            end
+        | (r, s1) => (r, s1)
+        end
+    end.
+
+Lemma eval_expr_unfold : forall e s,
+  eval_expr e s = match lookup_expr (es_mexpr s) e with Some v => (Ok v, s) | None => eval_expr_miss e s end.
+Proof. intros [a|n e'|o l r] s; reflexivity. Qed.
+Lemma eval_atom_unfold : forall a s,
+  eval_atom a s = match lookup_atom (es_matom s) a with Some v => (Ok v, s) | None => eval_atom_miss a s end.
+Proof. intros [c|x|f l|a' f l|a' n|a' e|a'] s; reflexivity. Qed.
+Lemma eval_var_unfold : forall x s,
+  eval_var x s =
+  match x with
+  | VName n =>
+      match alookup n (es_facts s) with
+      | Some v => (Ok (rval_of {| p_root := n; p_steps := [] |} v), s)
+      | None => (Err, s)
+      end
+  | VMember x' n =>
+      match eval_var x' s with
+      | (Ok r, s1) => (child_field s1 r n, s1)
+      | (r, s1) => (r, s1)
+      end
+  | VSel x' sel =>
+      match eval_var x' s with
+      | (Ok r, s1) =>
+          match eval_expr sel s1 with
+          | (Ok k, s2) => (child_sel s2 r (arg_val s2 k), s2)
+          | (r', s2) => (r', s2)
+          end
+      | (r, s1) => (r, s1)
+      end
+  end.
+Proof. intros [n|x' n|x' sel] s; reflexivity. Qed.
+Lemma eval_args_unfold : forall l s,
+  eval_args l s =
+  match l with
+  | ENil => (Ok [], s)
+  | ECons e l' =>
+      match eval_expr e s with
+      | (Ok v, s1) =>
+          match eval_args l' s1 with
+          | (Ok vs, s2) => (Ok (v :: vs), s2)
+          | (Err, s2) => (Err, s2)
+          | (Panic, s2) => (Panic, s2)
+          end
+      | (Err, s1) => (Err, s1)
+      | (Panic, s1) => (Panic, s1)
+      end
+  end.
+Proof. intros [|e l'] s; reflexivity. Qed.
 
 (* ---- Variable.Assign ---- *)
 Definition assign_var (x : var) (newv : val) (s : estate) : res unit * estate :=
